@@ -323,27 +323,50 @@ def statistics(ctx):
            f'gram_weighted_update must receive (w1, w2) in that order; got w1=`{show(a.get("w1", NONE), maxdepth=2)}` w2=`{show(a.get("w2", NONE), maxdepth=2)}`',
            ctx.loc(fu), sample='update(stats[index], g, axis, w1, w2)')
     old = a.get('old_stats', NONE)
-    idx_ok = any(x.op == 'sub' and any(y.op in ('phi', 'loop') for y in walk(x.args[1])) and
-                 any(l.op == 'sym' and l.args[-1] == 'stats' for l in walk(x.args[0])) for x in walk(old))
-    ctx.ob('C02.R4', fu.short, 'running statistic index', idx_ok,
-           f'each (block, axis) pair must consume stats[index] with a running index; got `{show(old, maxdepth=4)[:160]}`', ctx.loc(fu),
-           sample='stats[index]; index += 1')
     ax = a.get('axis', NONE)
-    ctx.ob('C02.R4', fu.short, 'axis from preconditioned dims', ax.op in ('elem', 'rangevar', 'oneof') or 'should_precondition_dims' in show(ax, maxdepth=8),
+    g_ = a.get('g', NONE)
+    subs_ = [x for x in walk(old) if x.op == 'sub' and any(l.op == 'sym' and l.args[-1] == 'stats' for l in walk(x.args[0]))]
+    idx_ok, step_ok, why = False, False, 'statistic is not read from `stats` by position'
+    if subs_:
+      ix = subs_[0].args[1]
+      if ix.op == 'phi':
+        # a counter threaded through the (block, axis) loops: starts at 0, +1 per pair, unconditionally
+        idx_ok = True
+        lids = []
+        t_ = ix
+        while t_.op == 'phi':
+          lids.append(t_.args[0])
+          t_ = t_.args[2]
+        idx_ok = is_const(t_, 0)
+        why = 'the running index must start at 0'
+        inner_lid = lids[0]
+        enclosing = [p_.args[0] for p_ in c.path if p_.op == 'inloop']
+        if not enclosing or enclosing[-1] != inner_lid:
+          idx_ok = False
+          why = 'the running index is not advanced in the innermost loop that reads the statistic (several pairs would read the same slot)'
+        for v_ in ev.last_scope.vars.values():
+          for x in walk(v_):
+            if x.op == 'loop' and x.args[0] == inner_lid and x.args[3].op == 'bin' and x.args[3].args[0] == '+' and \
+                x.args[3].args[1] is ix and is_const(x.args[3].args[2], 1):
+              step_ok = True
+      elif ix.op == 'index' and is_ext_call(ix.args[0], 'itertools.product') and len(ix.args[0].args[1]) == 2:
+        # position in enumerate(product(blocks, preconditioned dims)): block-major by construction
+        prod = ix.args[0]
+        e_ = ev.elem_of(prod)
+        idx_ok = g_ is T('sub', e_, const(0)) or (g_.op == 'sub' and g_.args[0] is e_ and is_const(g_.args[1], 0))
+        idx_ok = idx_ok and ax.op == 'sub' and ax.args[0] is e_ and is_const(ax.args[1], 1)
+        why = 'with enumerate(product(blocks, dims)) the block must be component 0 and the axis component 1 of the same pair'
+        step_ok = idx_ok
+        blocks_ = prod.args[1][0]
+        idx_ok = idx_ok and method_name(blocks_) == 'partition'
+    ctx.ob('C02.R4', fu.short, 'running statistic index', idx_ok,
+           f'each (block, axis) pair must consume stats[position of the pair in block-major order]: {why}; got `{show(old, maxdepth=4)[:160]}`', ctx.loc(fu),
+           sample='stats[index]; index += 1')
+    ctx.ob('C02.R4', fu.short, 'axis from preconditioned dims', ax.op in ('elem', 'rangevar', 'oneof', 'index', 'sub') or 'should_precondition_dims' in show(ax, maxdepth=8),
            f'the statistic axis must iterate over the preconditioned dims; got `{show(ax, maxdepth=4)[:120]}`', ctx.loc(fu),
            sample='for axis in preconditioned_dims')
-  # running index advances by one per statistic
-  sc = ev.last_scope
-  idx = sc.vars.get('index')
-  ok = False
-  if idx is not None and idx.op == 'loop':
-    inner = idx.args[3]
-    if inner.op == 'loop':
-      step_ = inner.args[3]
-      ok = step_.op == 'bin' and step_.args[0] == '+' and is_const(step_.args[2], 1) and \
-          step_.args[1].op == 'phi' and step_.args[1].args[0] == inner.args[0]
-  ctx.ob('C02.R4', fu.short, 'index += 1', ok, f'the statistic index must advance by exactly one per (block, axis); got `{show(idx, maxdepth=5)[:160] if idx is not None else None}`',
-         ctx.loc(fu), sample='index += 1')
+    ctx.ob('C02.R4', fu.short, 'index += 1', step_ok, 'the statistic index must advance by exactly one per (block, axis), unconditionally',
+           ctx.loc(fu), sample='index += 1')
 
 
 def block_contraction(ctx):
